@@ -882,7 +882,7 @@ pub fn advance_quiet(ns: u64) {
     match current() {
         Some((w, me)) => {
             let mut g = w.lock();
-            g.clock = g.clock.saturating_add(ns);
+            g.clock = g.clock.checked_add(ns).expect("harness: virtual clock overflow");
             g.log(me, ev::ADVANCE, ns);
         }
         None => {
